@@ -51,6 +51,10 @@ PROPS = {
     'C02': dict(units=['mapper'], level='proof', trusted_base=TB_MAPPER, assumptions=AS_MAPPER + ['clause (b) (a key with a single-key mapping that occurs in no output never appears) is NOT yet covered by a contract; clauses (a), (c), (d) are'], witness='mapper', rests_on=['C19', 'C01']),
     'C03': dict(units=['mapper'], level='proof', trusted_base=TB_MAPPER, assumptions=AS_MAPPER + ['"held" is read as "considered pressed by the mapper"; for layouts without absorbing mappings and histories without release-all the universal client proves that this is exactly the set of physically held keys'], witness='mapper', rests_on=['C19']),
     'C06': dict(units=['mapper'], level='proof', trusted_base=TB_MAPPER, assumptions=AS_MAPPER + ['ONLY the reset clause is decided (after every physical key has been released, and after release_all, nothing is considered pressed and nothing is held on the virtual keyboard); "answers every subsequent event sequence exactly as a new mapper" is a relation between two runs (the fields mapped_absorbed_keys / absorbing_trigger / repeating_trigger may keep stale values) and is not expressible as a single-run contract: NOT claimed'], witness='mapper', rests_on=['C19', 'C01']),
+    'C08': dict(units=['mapper'], level='proof', trusted_base=TB_MAPPER, assumptions=AS_MAPPER + [
+                    'claimed for layouts in which every mapping with an absorbing list outputs a non-modifier key; the complementary shape is known finding D8 (known_findings.txt), replayed on every run',
+                    'clause (ii) is proved for the end of the step (if the step pressed a non-modifier key, the absorbed key is not held afterwards unless a mapping in effect outputs it), not for every instant inside the step'],
+                witness='mapper', rests_on=['C19']),
     'C09': dict(units=['mapper'], level='proof', trusted_base=TB_MAPPER, assumptions=AS_MAPPER, witness='mapper'),
     'C10': dict(units=['loop'], level='proof', trusted_base=TB_LOOP, assumptions=AS_LOOP, witness=None),
     'C11': dict(units=['loop'], level='proof', trusted_base=TB_LOOP, assumptions=AS_LOOP, witness=None, rests_on=['C09']),
